@@ -34,7 +34,7 @@ ASSUMPTIONS = [
 OUTSIDE = ["torn writes inside one file", "concurrent invocations of the script", "the Groovy semantics of the .nf files (read as a dependency graph)"]
 RULE = "the interruption point (and the partial output set of an interrupted pipeline run) is a solver-chosen value; each path is one interrupted-and-resumed execution compared with the uninterrupted one."
 BUDGET_S = {"quick": 280, "thorough": 1700}
-TASK_QUOTA = 60
+TASK_QUOTA = 12
 EXCEPTIONS_ARE_VIOLATIONS = True
 
 
@@ -43,7 +43,7 @@ def configs(tier, seed):
     out = [dict(name="retrospective P=3", h="resume", mode="retrospective", P=3, bmax=2, crashes=1),
            dict(name="retrospective P=4", h="resume", mode="retrospective", P=4, bmax=3, crashes=1),
            dict(name="prospective", h="resume", mode="prospective", P=3, bmax=3, crashes=1),
-           dict(name="retrospective P=12 batch=1 (more than ten iterations)", h="resume", mode="retrospective", P=12, bmax=1, crashes=1),
+           dict(name="retrospective P=12 batch=1 (more than ten iterations)", h="resume", mode="retrospective", P=12, bmax=1, crashes=1, split_after=2),
            dict(name="retrospective P=3 two interruptions", h="resume", mode="retrospective", P=3, bmax=2, crashes=2),
            dict(name="prospective two interruptions", h="resume", mode="prospective", P=3, bmax=2, crashes=2)]
     out.append(dict(name="prospective, eleventh round (ten earlier rounds)", h="resume", mode="prospective", P=3, bmax=1, crashes=1, pre=10))
@@ -163,19 +163,46 @@ class Pipeline:
                       ("selected_plate", _sel(cur, th, ""), ["distance_matrix_chunk_0.h5"])]
         else:
             raise ValueError("unknown pipeline mode %r" % mode)
+        # every task writes its output into the work directory the script passes (-work-dir <step dir>/work) and the file is
+        # published to <step dir>/<name>/ afterwards
+        wd = a.get("-work-dir")
+
+        def in_work(k, fn, c):
+            if wd is None:
+                return
+            tdir = "%s/%02x/task%d/%s" % (wd, k, k, name)
+            # not interruption points of their own: an interruption inside a pipeline run is the choice made below
+            saved = (fs.armed, fs.ticks)
+            fs.armed = False
+            if not fs.exists(tdir):
+                fs.makedirs(tdir)
+            fs.write(tdir + "/" + fn, c)
+            fs.armed, fs.ticks = saved
         if fs.crash_now("pipeline run " + out):
-            # killed mid-run: any dependency-closed subset of the outputs has been published
+            # killed mid-run: any dependency-closed subset of the outputs has been published; at most one further task has
+            # finished in the work directory without its output having been published yet
             fs.armed = False
             done = []
-            for fn, c, deps in files:
+            for k, (fn, c, deps) in enumerate(files):
                 if all(x in done for x in deps) and self.choose("%d_%s" % (self.nruns, fn)):
+                    in_work(k, fn, c)
                     if not fs.exists(d):
                         fs.makedirs(d)
                     fs.write(d + "/" + fn, c)
                     done.append(fn)
-            raise Crash("pipeline run " + out + " published " + ",".join(done))
+            # (only for the two files the script's completeness test looks for; the others are never searched for by name)
+            pending = [(k, fn, c) for k, (fn, c, deps) in enumerate(files) if fn not in done and all(x in done for x in deps)
+                       and fn in ("selected_plate", "screen_metadata.json")]
+            extra = ""
+            for k, fn, c in pending:
+                if self.choose("%d_work_%s" % (self.nruns, fn)):
+                    in_work(k, fn, c)
+                    extra = "; finished but unpublished: " + fn
+                    break
+            raise Crash("pipeline run " + out + " published " + ",".join(done) + extra)
         fs.makedirs(d, exist_ok=True)
-        for fn, c, deps in files:
+        for k, (fn, c, deps) in enumerate(files):
+            in_work(k, fn, c)
             fs.write(d + "/" + fn, c)
 
 
